@@ -56,6 +56,9 @@ CLAIMED = {
     "C08": ("Lean 4 theorems over an executable model of the energy traversal model, prediction record (incl. float cache), ICE/BEV/PHEV and vehicle_ops, generic over any ordered field, prediction model and cache as parameters + bit-exact correspondence run against the real EnergyTraversalModel / SpeedTraversalModel / vehicles / FloatCachePolicy around a stub predictor",
             "Proof: per-edge energy = rate(edge speed x exact reconstruction factor, grade) x adjustment x length (factor within 0.1% of 1 for all 720 unit configurations, decided by the kernel over the translator-regenerated tables); additivity along every route for every unit configuration and cache; state of charge within 0-100 for every edge sequence (induction), start value, exact clamped step -100 E/capacity, PHEV switch, best case, rejection of out-of-range / non-numeric starting charge; cache proved to be the identity when the key determines the prediction. Three deviations of the code are modelled faithfully and proved as counterexamples (cache key collisions / truncated key, unit mix in best_case_energy_state, starting charge set through state_features without range check); the haversine value used by estimate_traversal is an input of the model, not modelled.",
             "§5 C08"),
+    "C13": ("Lean 4 model of both k-shortest-path algorithms over the shared search model; single-via proved (loop invariants over every replayed pop sequence, arbitrary similarity function); Yen modelled as a fuelled loop with explicit divergence outcomes and machine-checked counterexamples; bit-exact correspondence replaying every underlying search schedule and the intersection pops (Yen runs only in resource-limited child processes)",
+            "Proof for single-via: for every configuration with consistent adjacency, every k, termination criterion, similarity function (arbitrary, possibly failing), every schedule of the two underlying searches and every replayed pop order: at most k routes and at least one when k >= 1; the loop makes at most one turn per intersection entry; the first route is the underlying search's route (least cost under the C02 premises, Dijkstra and admissible A*); every route is a contiguous loop-free origin-destination walk without a repeated edge; every alternative's second half is the forward re-accumulation from the first half's last edge and state; routes are pairwise distinct in edge sequence and pairwise not similar; AcceptAll's test is constantly false and, for the same replay, AcceptAll returns at least as many routes as any similarity test; the only failures that propagate are those of the two searches, of the re-traversal and of the similarity function. Defects of single-via (alternatives may take a restricted turn; a failing reverse search turns an answerable query into an error) and of Yen's algorithm (does not return for shortest routes of one or two edges with k >= 2 or when no candidate is dissimilar; a failed spur search is propagated; more than k routes; duplicates; spur states not accumulated; loops) are machine-checked counterexamples on the faithful model, reproduced on the real code by corpus witnesses on every run and listed as known findings; for Yen only the partial results that hold are proved (first route, k <= 1).",
+            "§4, §5 C13"),
     "C14": ("Lean 4 theorems over an executable model of find_nearest_index / linspace / Interp1D-2D-3D-ND / InterpolationSpeedGradeModel (any linearly ordered field) + bit-exact correspondence run against the real code on random grids, tables, points and every speed/grade unit",
             "Proof: cell lookup brackets the target (binary-search invariants), the speed/grade prediction is between the four corner rates, exact on grid points, equal to the bilinear formula of every closed cell containing the input (continuity across borders), clamps outside inputs to the nearest grid boundary and never fails for >= 2 bins; the generic interpolators reproduce multilinear data exactly, N-D agrees with 1-D/2-D/3-D, and points outside are rejected. The model is tied to the Rust code by a bit-exact differential run (same operation order) over random uniform and non-uniform grids, all dimensions, validated and raw paths, every unit combination and the bundled random-forest models. Defects of the code (one-point axes accepted by the constructors and then panicking in find_nearest_index — speed/grade model and Interp2D/3D —, raw linear methods do not reject outside points, InterpND::new panics on a short grid vector) are machine-checked counterexamples and known findings.",
             "§5 C14"),
